@@ -30,7 +30,7 @@ var profC02 = ConcProfile{
 	Profile: Profile{
 		MaxBars: 8, MinBars: 1, Refresh: []string{"autort", "autort", "autoinj", "manual", "none"}, QLens: []int{-1, -1, 0, 1, 2, -2, -3},
 		Pop: 25, Queue: 15, Prio: true, Ext: 10, Text: 3, Rm: 25, NoPop: 15, AbortW: 2,
-		SyncDecors: 1, PlainDecors: 1, Wraps: true, Fillers: []string{"bar", "tag", "nop", "spinner"}, Notifier: 40, Listeners: 30, Faults: 10,
+		SyncDecors: 1, PlainDecors: 1, Wraps: true, Fillers: []string{"bar", "tag", "nop", "spinner", "spinnerv"}, Notifier: 40, Listeners: 30, Faults: 10, DisabledPct: 10,
 	},
 	MaxBlocks: 4, MaxBlockOps: 8, Pars: 2, CancelIn: 60, PerturbMax: 3, HoldPct: 40, SyncPct: 50, LateOps: true,
 }
@@ -44,8 +44,10 @@ func genLate(t *rapid.T, sc *engine.Scenario) []engine.Step {
 		switch rapid.IntRange(0, 13).Draw(t, "lateop") {
 		case 0, 1:
 			late = append(late, engine.Step{Op: "add", Bar: bar}) // only bars never added are really tried
-		case 2, 3:
+		case 2:
 			late = append(late, engine.Step{Op: "write", Text: fmt.Sprintf("wL.%d:late\n", k)})
+		case 3:
+			late = append(late, engine.Step{Op: "write", Text: ""}) // an empty write after Wait is still (0, ErrDone)
 		case 4:
 			late = append(late, engine.Step{Op: "incr", Bar: bar, N: rapid.Int64Range(0, 30).Draw(t, "ln"), Text: rapid.SampledFrom([]string{"", "by", "ewma"}).Draw(t, "lv")})
 		case 5:
